@@ -13,25 +13,25 @@ nfiles = len(glob.glob('/verif/coq/theories/*/*.v'))
 nfix = int(subprocess.check_output("git -C /repo log --oneline | grep -c ' fix:'", shell=True).decode())
 models = {
  "C01": ("M_Slicing.v (+ Base/PyIndex.v, Base/Shape.v)", "cubes over sliced / resampled exact linear FITS WCS (lin_wcs) and probe WCS, all basic index items incl. negative / out-of-range / Ellipsis / None, Python and numpy integers, numpy + dask payloads; lookup-table gWCS, already-wrapped (resampled, high-level) WCS and already-sliced cubes (start > 0, explicit stops, recorded array shape) by the direct oracle; `array_shape None` read as 'no shape known'"),
- "C02": ("M_ExtraCoords.v", "lookup tables (Quantity 1-3 tables, Time, SkyCoord mesh / not) on any axes, on a 1-D FITS grid, sky meshes; WCS-backed ExtraCoords with permuted / partial mappings, integer items and chains (direct oracle)"),
+ "C02": ("M_ExtraCoords.v", "lookup tables (Quantity 1-3 tables, Time, SkyCoord mesh / not) on any axes, on a 1-D FITS grid, sky meshes; WCS-backed ExtraCoords with permuted / partial mappings, integer items (Python and numpy), chains, names; array dimensions spelled negative / as lists / as numpy ints; multi-table coordinates in either axis order; every cube is asked about itself before each slice in half the cases"),
  "C03": ("M_GlobalCoords.v", "histories of integer slices with branching, user-added global coords, 3-table Quantity coordinates; rot family restricted to 2-D; two generic gWCS frames whose dropped object keys clash (a gwcs limitation) are not generated"),
- "C04": ("M_Crop.v (reuses C14's wrapper evaluator)", "probe WCS with exact edges, TAN / rotated / tan_split families, lookup-table extra coords on 1-3-D cubes, None per independent group and all-None, float values in two unit spellings, Quantities, high-level objects, malformed requests"),
+ "C04": ("M_Crop.v (reuses C14's wrapper evaluator)", "probe WCS with exact edges, TAN / rotated / tan_split families, lookup-table extra coords on 1-3-D cubes, None per independent group and all-None, float values in two unit spellings handed over as float / numpy scalar / 0-d array, Quantities, high-level objects, malformed requests; never-evaluated FITS WCS; meshed SkyCoord extra coords; per-point None layouts incl. points with no coordinate; cubes that are results of a rebin"),
  "C05": ("M_WorldCoords.v (proofs in P_WorldCoords.v, P_WorldCoordsEC.v)", "every correlation structure up to 3x3 (+ sampled 4x4), wcs / extra_coords / combined_wcs, corners, grouped objects, ask / scribble / add / ask; extra coords coupled to several cube axes in any axis order: WCS-backed ExtraCoords with any correlation matrix and mapping (in the model: world_array_ec, the transposition `relabel`), 2-D per-pixel SkyCoord tables (direct oracle); gWCS primary WCS not generated"),
- "C06": ("M_Wrappers.v (compound), P_Combined.v", "probe WCS with 0-4 linear tables, plain / integer-sliced / rebinned, inspect-before-last-add"),
- "C07": ("M_Store.v", "random histories <= 6 steps on cubes / sequences / collections; sharing measured per cube-level step; snapshots of every object after every step"),
- "C08": ("M_Rebin.v", "all bin shapes dividing shapes up to 4-D, operations mean / sum / min / max / custom, masks, handle_mask, dask, new_unit"),
+ "C06": ("M_Wrappers.v (compound), P_Combined.v", "probe WCS with 0-4 linear tables, plain / integer-sliced / rebinned / integer-sliced then rebinned, inspect-before-last-add; extra coords given as an invertible WCS with known shapes; the combined WCS's recorded shape"),
+ "C07": ("M_Store.v", "random histories <= 6 steps on cubes / sequences / collections; sharing measured per cube-level step; snapshots of every object after every step; NaN payloads with nan-operations; reprojection of already sliced / rebinned cubes"),
+ "C08": ("M_Rebin.v", "all bin shapes dividing shapes up to 4-D, operations mean / sum / min / max / custom, masks, handle_mask, dask (with dask or numpy masks; the result must stay lazy), new_unit; the mask switch as bool / numpy bool / int; pixel Quantities in pix or a pixel-convertible unit"),
  "C09": ("M_Resample.v", "lin / TAN / rotated WCS, lookup-table extra coords incl. SkyCoord in several units and Time, multi-step rebin; one coordinate spanning several axes in any axis order (2-D per-pixel SkyCoord table, two-table Quantity coordinate, WCS-backed ExtraCoords with any mapping) by the direct oracle, with two known findings (q2-grid-shapes, sky2-length1)"),
- "C10": ("M_Arith.v", "see MANIFEST; uncertainties carrying a unit different from the cube's are not generated"),
- "C11": ("M_Sequence.v", "exhaustive small index domains; sequences of ragged cubes; Ellipsis alone (tuple and bare); numpy integers; out-of-range explode axes are unspecified and not judged"),
- "C12": ("M_IndexAsCube.v", "exhaustive: all length vectors up to 3 (4) cubes x length 3 (4), every int / slice item of both signs; 2-4-D cubes with ints on the leading axes"),
+ "C10": ("M_Arith.v", "see MANIFEST; operands also as numpy unsigned / signed integers; global coords of result and source edited independently; uncertainties carrying a unit different from the cube's are not generated"),
+ "C11": ("M_Sequence.v", "exhaustive small index domains; sequences of ragged cubes; Ellipsis alone (tuple and bare); numpy integers; the common axis also in its negative spelling; every second sequence is asked about itself before each step; out-of-range explode axes are unspecified and not judged"),
+ "C12": ("M_IndexAsCube.v", "exhaustive: all length vectors up to 3 (4) cubes x length 3 (4), every int / slice item of both signs; 2-4-D cubes with ints on the leading axes; tuples that stop before the common axis; the result is indexed as a cube once more"),
  "C13": ("M_Collection.v (proofs in P_Collection.v, P_CollectionInv.v)", "edit histories (slice, keys, pop, update, del, refused operations) on collections with 0-4 aligned axes in any per-member order; every collection an edit came from is re-observed; numpy integers; members that are NDCubeSequences (axis 0 = the sequence axis, aligned or not; an integer there turns the member into a cube); slices that would leave an empty sequence are unspecified and not judged"),
- "C14": ("M_Wrappers.v", "wrapper expressions of depth <= 3 over probe / lin WCS with exact rational evaluation (wexpr evaluator); scalar and integer-typed factor / offset arguments; compound members that are themselves compounds"),
- "C15": ("M_Unwrap.v", "chains of slices and resamplings over FITS WCS with PC or CD matrices; raw negative items excluded (C01 normalises them before they reach the WCS)"),
- "C16": ("M_RebinUnc.v", "StdDev / Variance / InverseVariance, sum / mean / prod / nan-variants, masks, ignores-mask; NaN data together with operation_ignores_mask: either consistent reading is accepted (NaN members out of sum and divisor, or in both), a mixture is not"),
- "C17": ("M_SeqCoords.v (+ M_WorldCoords.v, M_IndexAsCube.v)", "see MANIFEST; cubes of one sequence share one coordinate structure"),
- "C18": ("M_SeqCrop.v (+ M_Crop.v)", "see MANIFEST; extra-coords wcses by the direct oracle only"),
- "C19": ("M_Lookup.v (+ M_Resample.v)", "see MANIFEST; names / types / units and 2-D SkyCoord tables by the direct oracle only"),
- "C20": ("M_Reproject.v", "see MANIFEST; adaptive algorithm: refusals, shape and attributes only"),
+ "C14": ("M_Wrappers.v", "wrapper expressions of depth <= 3 over probe / lin WCS with exact rational evaluation (wexpr evaluator); scalar and integer-typed factor / offset arguments; compound members that are themselves compounds; orders as list / tuple / array / iterator; parameters the caller changes after construction; array world inputs with one inconsistent element; inner WCS with fewer pixel than world dimensions"),
+ "C15": ("M_Unwrap.v", "chains of slices and resamplings over FITS WCS with PC or CD matrices; numpy integers in raw slice chains; raw negative items excluded (C01 normalises them before they reach the WCS)"),
+ "C16": ("M_RebinUnc.v", "StdDev / Variance / InverseVariance, sum / mean / prod / nan-variants, masks, ignores-mask; NaN data together with operation_ignores_mask: either consistent reading is accepted (NaN members out of sum and divisor, or in both), a mixture is not; the mask switch as bool / numpy bool / int; the user's propagation function as function / partial / bound method / callable object, which must have been called"),
+ "C17": ("M_SeqCoords.v (+ M_WorldCoords.v, M_IndexAsCube.v)", "see MANIFEST; cubes of one sequence share one coordinate structure (1-D tables; multi-table coordinates are C02's); tables dropped by slicing and cubes that went through arithmetic, with the expected global names stated independently"),
+ "C18": ("M_SeqCrop.v (+ M_Crop.v)", "see MANIFEST; extra-coords wcses by the direct oracle only; wcses as a list of attribute names; cubes sharing one WCS object; per-point None layouts; all points in one pixel; an independent statement of the box; the result cropped again with the same arguments"),
+ "C19": ("M_Lookup.v (+ M_Resample.v)", "see MANIFEST; names / types / units and 2-D SkyCoord tables by the direct oracle only; a 'units' probe (tables in m / km / cm, numpy-integer items); resampling leaves its source unchanged and is repeatable; two-axis coordinates in either axis order"),
+ "C20": ("M_Reproject.v", "see MANIFEST; adaptive algorithm: refusals, shape and attributes only; int64 / float32 payloads; shape_out as tuple / list / array; the footprint flag as bool / numpy bool / int; the cube's own WCS as target; WCS objects and global coords of the source untouched"),
 }
 missed = [n for n, m in seeds.items() if 'missed' in m.get('history', '') or 'only through' in m.get('history', '')]
 L = []
